@@ -95,7 +95,15 @@ def gen_case(rng, tier):
         labels = pick_labels(rng, n)
         kmax, jmax = (8, 2) if dtype != 'float32' else (6, 1)
         d = gen_bqm_desc(rng, labels, rng.choice(['SPIN', 'BINARY']), kmax, jmax)
-        d.update({"kind": "bqm", "dtype": dtype, "route": rng.choice(BQM_ROUTES), "obj_ints": False})
+        # object-dtype models hold Python ints for integral biases half of the time (mixed int/float
+        # vectors, fractional offsets over all-int biases, all-int models)
+        d.update({"kind": "bqm", "dtype": dtype, "route": rng.choice(BQM_ROUTES),
+                  "obj_ints": dtype == 'object' and rng.random() < 0.5})
+        if (d["obj_ints"] and d["route"] == 'ser_bytes' and d["quad"] and Fraction(d["off"]).denominator == 1
+                and all(Fraction(x[-1]).denominator == 1 for x in d["lin"] + d["quad"])):
+            # all-integer object model as bytes: open finding obj_bqm_bytes_all_int (bias_type int64 is written
+            # but from_serializable cannot read it back); kept out of the random stream
+            d["off"] = str(Fraction(d["off"]) + Fraction(1, 2))
         return d
     if r < 0.44:
         n = rng.choice([0, 1, 2, 3, 5, 9])
@@ -396,10 +404,13 @@ def run_bqm(c):
              "nested_tuple_label": any(isinstance(l, tuple) and any(isinstance(x, tuple) for x in l) for l in bqm.variables),
              "obj_ints": bool(c.get("obj_ints"))}
     if c.get("obj_ints"):
+        # descriptive only (the two defects in this region were repaired in 77087ee)
         ld = np.asarray([bqm.get_linear(v) for v in bqm.variables])
         qd = np.asarray([b for _, _, b in bqm.iter_quadratic()])
-        feats["obj_bqm_offset_trunc"] = bool(ld.dtype.kind == 'i' and F(c["off"]).denominator != 1)
-        feats["obj_bqm_bytes_mixed"] = bool(route == 'ser_bytes' and ld.dtype != qd.dtype)
+        feats["int_linear_fractional_offset"] = bool(ld.dtype.kind == 'i' and F(c["off"]).denominator != 1)
+        feats["mixed_int_float_vectors"] = bool(ld.dtype != qd.dtype)
+        common = np.result_type(*(np.asarray(a).dtype for a in (ld, qd, bqm.offset)))
+        feats["obj_bqm_bytes_all_int"] = bool(route == 'ser_bytes' and common.kind in 'iu')
     doc = None
     try:
         if route.startswith('ser'):
